@@ -53,7 +53,7 @@ Verdict(t) ==
   IF ~MetricCompatible(t.ops, t.gram) THEN "OOD metric" ELSE
   IF ~ChemistryOK(t.asym, t.mols, t.bonds) THEN "OOD chemistry" ELSE
   IF ~GeneralPositions(tab) \/ ~OrbitsDisjointT(tab) THEN "OOD special-position" ELSE
-  IF ~(ThresholdsOK(t.thr, N, t.u2m) /\ MassesOK(t.mass)) THEN "OOD thresholds" ELSE
+  IF ~(ThresholdsTolOK(t.thr, N, t.u2m, t.tol100) /\ MassesOK(t.mass)) THEN "OOD thresholds" ELSE
   IF ~ReachCertificate(t.gram, t.thr, N) THEN "OOD cell-too-small" ELSE
   IF ~ContactsClear(t.gram, tab, t.asym, N, t.thr, t.bonds) THEN "OOD contacts" ELSE
   IF t.exc_conn # "" THEN "REJECT Raised:unit_cell_connectivity" ELSE
